@@ -391,3 +391,40 @@ Proof.
   - apply nas_mac_nia2_is_eia2; assumption.
 Qed.
 
+(* ------------------------------------------------------------------ the MAC is four octets (used by C06/C10) *)
+Lemma Some_inj {A} (a b:A) : Some a = Some b -> a = b.
+Proof. intro H. injection H. auto. Qed.
+Lemma SOk_inj {A} (a b:A) : SOk a = SOk b -> a = b.
+Proof. intro H. injection H. auto. Qed.
+Lemma nia1_post_len z msg L t : nia1_post z msg L = SOk t -> length t = 4%nat.
+Proof.
+  unfold nia1_post. cbv zeta. destruct (nia1_loop _ _ _ _ _ _); try discriminate.
+  destruct (_ <? _); try discriminate. intro H. apply SOk_inj in H. rewrite <- H. unfold put_uint32.
+  rewrite app_length, N_to_be_length. reflexivity.
+Qed.
+Lemma cmac_aes128_length key m : key_ok key = true -> length (cmac aes128 key m) = 16%nat.
+Proof. intro Hk. unfold cmac. cbv zeta. apply aes128_length. unfold key_ok in Hk. apply Nat.eqb_eq, Hk. Qed.
+Lemma eia2_aes128_length key count bearer dir msg : key_ok key = true -> length (eia2 aes128 key count bearer dir msg) = 4%nat.
+Proof. intro Hk. unfold eia2. rewrite firstn_length, cmac_aes128_length by exact Hk. reflexivity. Qed.
+Lemma nas_mac_alg1 key count bearer dir msg :
+  key_ok key = true -> bearer < 32 -> dir < 2 ->
+  nas_mac 1 key count bearer dir msg
+  = sres_opt (snd (NIA1 zero_state key count bearer dir msg (w64 (w64 (N.of_nat (length msg)) * 8)))).
+Proof.
+  intros Hk Hb Hd. unfold nas_mac, NASMacCalculate. rewrite Hk.
+  replace (31 <? bearer) with false by lia. replace (1 <? dir) with false by lia. reflexivity.
+Qed.
+Theorem nas_mac_len4 alg key count bearer dir msg t :
+  nas_mac alg key count bearer dir msg = Some t -> alg = 1 \/ alg = 2 -> length t = 4%nat.
+Proof.
+  intros H Ha.
+  destruct (N.le_gt_cases bearer 31) as [Hb|Hb]; [|rewrite nas_mac_refused in H by lia; discriminate].
+  destruct (N.le_gt_cases dir 1) as [Hd|Hd]; [|rewrite nas_mac_refused in H by lia; discriminate].
+  destruct (key_ok key) eqn:Hk; [|unfold nas_mac in H; rewrite Hk in H; discriminate].
+  destruct Ha as [-> | ->].
+  - rewrite nas_mac_alg1, NIA1_unfold in H by (assumption || lia).
+    destruct (nia1_post _ _ _) eqn:Hp; try discriminate.
+    apply Some_inj in H. subst a. apply (nia1_post_len _ _ _ _ Hp).
+  - rewrite nas_mac_nia2_is_eia2 in H by (assumption || lia).
+    apply Some_inj in H. subst t. apply eia2_aes128_length, Hk.
+Qed.
